@@ -76,10 +76,16 @@ class ReadFailure(Exception):
 class PickleReader:
     """FileHandler reader: a pickled point set -> xarray.Dataset"""
 
-    def __init__(self, broken=()):
+    def __init__(self, broken=(), delays=None):
         self.broken = set(broken)
+        self.delays = delays or {}
 
     def __call__(self, file_info, **kwargs):
+        delay = self.delays.get(os.path.basename(file_info.path), 0)
+        if delay:
+            # generated read delay: earlier files may finish after later ones
+            import time
+            time.sleep(delay)
         if os.path.basename(file_info.path) in self.broken:
             raise ReadFailure("cannot read %s" % file_info.path)
         with open(file_info.path, "rb") as fh:
@@ -199,7 +205,7 @@ def split_track(pset, cuts, start_only=False):
 
 
 def write_fileset(root, pieces, name, broken_index=None, start_only=False,
-                  daily_dirs=False):
+                  daily_dirs=False, delays_ms=()):
     from typhon.files import FileHandler, FileSet
     os.makedirs(root, exist_ok=True)
     specs, names = [], []
@@ -225,8 +231,11 @@ def write_fileset(root, pieces, name, broken_index=None, start_only=False,
     broken = []
     if broken_index is not None and names:
         broken = [names[broken_index % len(names)]]
+    delays = {names[k]: delays_ms[k % len(delays_ms)] / 1000.0
+              for k in range(len(names))
+              if delays_ms and delays_ms[k % len(delays_ms)]}
     fs = FileSet(G.template_str(template, root), name=name,
-                 handler=FileHandler(reader=PickleReader(broken)))
+                 handler=FileHandler(reader=PickleReader(broken, delays)))
     if start_only:
         # history: the fileset is searched (its info cache is filled) before
         # the files' duration is made known through time_coverage
@@ -318,7 +327,8 @@ def check_filesets(case, ctx):
                 fs, cov, bad = write_fileset(
                     os.path.join(root, names[f]), pieces[f], names[f],
                     broken[1] if broken and broken[0] == f else None,
-                    start_only[f], bool(case.get("daily_dirs")))
+                    start_only[f], bool(case.get("daily_dirs")),
+                    (cfg.get("delays_ms") or [[], []])[f])
                 filesets.append(fs)
                 coverages.append(cov)
                 broken_names.append(bad)
@@ -459,6 +469,8 @@ def check_filesets(case, ctx):
             if reference_files is None and not broken:
                 reference_files = gset
             # labels
+            if any(any(d) for d in (cfg.get("delays_ms") or [])):
+                ctx.label("read-delays")
             ctx.label("procs=%d" % cfg["processes"],
                       "bundle-%s" % cfg["bundle"])
             if cfg["processes"] > 1:
@@ -540,6 +552,11 @@ def fileset_cases(draw):
                       draw(st.integers(0, 7))]
         configs.append({
             "schedule": draw(st.sampled_from(["os", "os", "patient-poll"])),
+            # per-file read delays (ms), by file index: the first files are
+            # the slow ones, so that later reads overtake them
+            "delays_ms": draw(st.sampled_from([
+                None, None, [[60, 0, 0, 0], []], [[], [60, 0, 0]],
+                [[40, 0, 20, 0], [30, 0]]])),
             "processes": draw(st.sampled_from([1, 1, 2, 3, 4])),
             "bundle": draw(st.sampled_from([None, "primary", "daily"])),
             "output": draw(st.sampled_from(["memory", "memory", "disk"])),
